@@ -230,6 +230,11 @@ def run(ctx):
                  ctx.construct(rn, extra='CAS before scheduling'),
                  'scheduling is not preceded by the CAS to RUNNING',
                  ctx.loc(rn, c))
+    # _run_new ignores the boolean of set_state: the loser of a concurrent
+    # duplicate stops only because its in-memory copy still shows the state
+    # it read - the losing side of the CAS must leave that copy untouched
+    from mstatic.rules import c03 as _c03
+    _c03.loser_path_effect_free(ctx, r3)
 
     # ---- R4 executor: redelivered and result count --------------------------
     r4 = ctx.rule('R4', 'a redelivered non-safe action is not run; at most '
@@ -268,6 +273,33 @@ def run(ctx):
     worst = _max_on_path(cfg, senders)
     r4.check(worst <= 1, ctx.construct(dr, extra='one result per path'),
              'a non-exceptional path sends %d results' % worst, ctx.loc(dr))
+    # a second (error) result after a FAILED send is allowed only when the
+    # failure is one of the service's own errors (the message was never put
+    # on the bus, e.g. it could not be serialised); after a transport-level
+    # exception the first result may have been delivered
+    for t in ast.walk(dr.node):
+        if not isinstance(t, ast.Try):
+            continue
+        sends = [y for b in t.body for y in ast.walk(b)
+                 if isinstance(y, ast.Call) and
+                 U.call_name(y) == 'on_action_complete']
+        if not sends:
+            continue
+        for h in t.handlers:
+            again = [y for y in ast.walk(h) if isinstance(y, ast.Call) and
+                     U.call_name(y) in ('send_error_back',
+                                        'on_action_complete')]
+            if not again:
+                continue
+            hts = U.handler_types(h) or ['BaseException']
+            own_only = all(
+                esc_declared(ctx, dr, ht) for ht in hts)
+            r4.check(own_only, ctx.construct(dr, extra='second result only '
+                                             'after a Mistral error'),
+                     'an error result is sent after the first send failed '
+                     'with %s: a transport-level failure does not mean the '
+                     'first result was not delivered (two results for one '
+                     'run)' % hts, ctx.loc(dr, h))
     seb = prog.funcs.get(dr.qname + '.<locals>.send_error_back')
     if seb is None:
         raise AnalysisError('C06.R4: send_error_back helper lost')
@@ -373,3 +405,16 @@ def _max_on_path(cfg, marked):
         memo[n.id] = r
         return r
     return go(cfg.entry)
+
+
+def esc_declared(ctx, f, handler_type):
+    """handler_type (dotted text in f's module) is one of the service's own
+    exception classes (subclass of MistralException / MistralError)."""
+    prog = ctx.prog
+    r = prog.resolve_dotted(f.module, handler_type)
+    if r not in prog.classes:
+        return False
+    return any(k.endswith('exceptions.MistralException') or
+               k.endswith('exceptions.MistralError') or
+               k.endswith('exceptions.MistralExceptionBase')
+               for k in prog.mro(r))
